@@ -40,15 +40,11 @@ Print Assumptions C18_sort_priority_monotone.
     multi-line signatures, any text — the AST path answers with a classification the
     documented rule accepts: nothing outside collected test / fixture functions and mark
     argument lists; the spanning function, as signature or body where the boundary allows;
-    or a usefixtures list.  (Exception, listed: it also answers inside a parametrize mark
-    that has no [indirect].) *)
+    a usefixtures list; or a parametrize mark that has an [indirect] keyword. *)
 Theorem C18_ast_context_meets_spec :
   forall ls m l,
     Forall wf_stmt (flat_map ccollected m) ->
-    match ast_ctx ls m l with
-    | Some CParam => True
-    | r => existsb (expect_eqb (expect_of r)) (spec_expect m l) = true
-    end.
+    existsb (expect_eqb (expect_of (ast_ctx ls m l))) (spec_expect m l) = true.
 Proof. exact ast_ctx_meets_spec. Qed.
 Print Assumptions C18_ast_context_meets_spec.
 
@@ -121,13 +117,15 @@ Lemma C18_signature_end_old_refuted :
   signature_end_line_old doc_C 1 (Some 1) (Some 2) = 2 /\ signature_end_line doc_C 1 (Some 1) (Some 2) = 1.
 Proof. split; vm_compute; reflexivity. Qed.
 
-(** known finding: a parametrize mark without indirect still yields a context *)
-Definition lay_P : list cstmt :=
-  [CFun "test_plain" [mk_cdec (ECall (EAttr (EAttr (EName "pytest" 1 1 7) "mark") "parametrize") [EStr "db" 1 25 1 29] []) 1 1]
-        ["db"] (Some 2) (Some 3) 2 3].
-Lemma C18_parametrize_plain_refuted :
-  ast_ctx [] lay_P 1 = Some CParam /\ spec_expect lay_P 1 = [ENone].
-Proof. split; vm_compute; reflexivity. Qed.
+(** fix e3a98b7: a parametrize mark without [indirect] no longer yields a context (the old
+    decorator test answered on every parametrize decorator) *)
+Definition dec_P : cdec :=
+  mk_cdec (ECall (EAttr (EAttr (EName "pytest" 1 1 7) "mark") "parametrize") [EStr "db" 1 25 1 29] []) 1 1.
+Definition lay_P : list cstmt := [CFun "test_plain" [dec_P] ["db"] (Some 2) (Some 3) 2 3].
+Lemma C18_parametrize_plain_old_refuted :
+  dec_ctx_old 1 dec_P = Some CParam /\ dec_ctx 1 dec_P = None
+  /\ ast_ctx [] lay_P 1 = None /\ spec_expect lay_P 1 = [ENone].
+Proof. repeat split; vm_compute; reflexivity. Qed.
 
 (** non-vacuity: a fixture of module scope edits its parameters; what it is offered *)
 Example C18_example :
@@ -141,4 +139,4 @@ Proof. vm_compute. reflexivity. Qed.
 
 Check C18_ast_context_meets_spec :
   forall ls m l, Forall wf_stmt (flat_map ccollected m) ->
-                 match ast_ctx ls m l with Some CParam => True | r => existsb (expect_eqb (expect_of r)) (spec_expect m l) = true end.
+                 existsb (expect_eqb (expect_of (ast_ctx ls m l))) (spec_expect m l) = true.
